@@ -147,6 +147,11 @@ def package_parts(ps):
             add(F + u'Configurations2/menubar.xml', b'<m/>', u'')
             man.append((F + u'Configurations2/', u'application/vnd.sun.xml.ui.configuration'))
             add(F + u'meta.xml', pk.new_real(o['kind'], 1000 + o['num'], False).metaxml().encode('utf-8'), u'text/xml')
+            add(F + u'Thumbnails/thumbnail.png', bytes([o['num'] % 256, 1]), u'image/png')
+            add(F + u'ObjectReplacements/Object 1', bytes([o['num'] % 256, 2]), u'application/x-openoffice-gdimetafile')
+            add(F + u'Pictures/sub/deep.png', bytes([o['num'] % 256, 3]), u'image/png')
+            add(F + u'mimetype', pk.KINDS[o['kind']].encode('utf-8'), u'')
+            add(F + u'META-INF/manifest.xml', b'<m/>', u'text/xml')
         for n, mt, hx in o['pics']:
             add(F + n, bytes.fromhex(hx), mt)
         if o['nested']:
